@@ -246,3 +246,139 @@ pub fn gen_argv_broad(t: &mut Tape<'_>, spec: &CmdSpec) -> Argv {
     }
     out
 }
+
+/// A value for `arg`: often one that some predicate of the level mentions for it
+/// (required_if_eq*, requires_if, default_value_if), else any accepted value.
+fn relation_value(t: &mut Tape<'_>, level: &CmdSpec, arg: &ArgSpec) -> String {
+    let mut mentioned: Vec<&String> = Vec::new();
+    for o in &level.args {
+        for (id, v) in o.required_if_eq_any.iter().chain(o.required_if_eq_all.iter()) {
+            if *id == arg.id {
+                mentioned.push(v);
+            }
+        }
+        for (id, p, _) in &o.default_value_ifs {
+            if let (true, Pred::Equals(v)) = (*id == arg.id, p) {
+                mentioned.push(v);
+            }
+        }
+    }
+    for (p, _) in &arg.requires_ifs {
+        if let Pred::Equals(v) = p {
+            mentioned.push(v);
+        }
+    }
+    if !mentioned.is_empty() && t.chance(2, 3) {
+        return (*t.pick(&mentioned)).clone();
+    }
+    good_value(t, &arg.parser)
+}
+
+/// argv that supplies a random subset of each level's arguments in well-formed
+/// occurrences (so that a good share of parses succeed): positionals first,
+/// then flags/options, then optionally a subcommand.
+pub fn gen_argv_subset(t: &mut Tape<'_>, spec: &CmdSpec) -> Argv {
+    let mut out: Argv = Vec::new();
+    if !spec.settings.no_binary_name {
+        out.push(s("prog"));
+    }
+    let mut level = spec;
+    loop {
+        let want_required = t.chance(3, 4);
+        // positionals: a prefix of them
+        let pos: Vec<&ArgSpec> = level.args.iter().filter(|a| a.is_positional()).collect();
+        let mut npos = if pos.is_empty() { 0 } else { t.range(0, pos.len()) };
+        if want_required {
+            for (i, p) in pos.iter().enumerate() {
+                if p.required && !p.last {
+                    npos = npos.max(i + 1);
+                }
+            }
+        }
+        let mut last_tail: Vec<Vec<u8>> = Vec::new();
+        for p in pos.iter().take(npos) {
+            let (lo, hi) = p.value_range();
+            let n = lo.max(1).min(hi.max(1));
+            let n = if hi > n && t.bool() { n + 1 } else { n };
+            let mut vals = Vec::new();
+            for _ in 0..n {
+                let mut v = relation_value(t, level, p);
+                if v.starts_with('-') || v.is_empty() {
+                    v = "1".into();
+                }
+                if level.subs.iter().any(|sc| sc.all_names().contains(&v)) {
+                    v = "1".into();
+                }
+                vals.push(s(&v));
+            }
+            if p.last {
+                last_tail = vals;
+            } else {
+                out.extend(vals);
+            }
+        }
+        for a in level.args.iter().filter(|a| !a.is_positional()) {
+            if a.action.is_help_or_version() {
+                continue;
+            }
+            let take = if a.required && want_required { true } else { t.chance(2, 5) };
+            if !take {
+                continue;
+            }
+            let times = if t.chance(1, 8) { 2 } else { 1 };
+            for _ in 0..times {
+                let name = match (&a.long, a.short) {
+                    (Some(l), Some(sh)) => {
+                        if t.bool() {
+                            format!("--{l}")
+                        } else {
+                            format!("-{sh}")
+                        }
+                    }
+                    (Some(l), None) => format!("--{l}"),
+                    (None, Some(sh)) => format!("-{sh}"),
+                    _ => continue,
+                };
+                if !a.action.takes_values() {
+                    out.push(s(&name));
+                    continue;
+                }
+                let (lo, hi) = a.value_range();
+                if hi == 0 || (lo == 0 && t.chance(1, 3)) {
+                    out.push(s(&name));
+                    continue;
+                }
+                if lo <= 1 {
+                    let v = relation_value(t, level, a);
+                    out.push(s(&format!("{name}={v}")));
+                } else {
+                    out.push(s(&name));
+                    for _ in 0..lo {
+                        let mut v = good_value(t, &a.parser);
+                        if v.starts_with('-') {
+                            v = "1".into();
+                        }
+                        out.push(s(&v));
+                    }
+                    if hi > lo {
+                        if let Some(term) = &a.value_terminator {
+                            out.push(s(term));
+                        }
+                    }
+                }
+            }
+        }
+        if !last_tail.is_empty() {
+            out.push(s("--"));
+            out.extend(last_tail);
+            break;
+        }
+        if level.subs.is_empty() || t.chance(1, 2) {
+            break;
+        }
+        let sc = &level.subs[t.choose(level.subs.len())];
+        out.push(s(&sc.name));
+        level = sc;
+    }
+    out
+}
